@@ -68,8 +68,11 @@ func bytesSer(f func() []byte) func() ([]byte, error) {
 // Parsers lists every exported byte-consuming entry point of the library.
 var Parsers []Parser
 
+// add registers an entry point. The input is always handed over with cap == len: a parser that
+// re-slices past the end of what it was given (reading the caller's unrelated bytes) then fails
+// loudly instead of silently succeeding whenever the caller's slice happens to have spare capacity.
 func add(name, family string, fn func(in []byte) Parsed) {
-	Parsers = append(Parsers, Parser{name, family, fn})
+	Parsers = append(Parsers, Parser{name, family, func(in []byte) Parsed { return fn(in[:len(in):len(in)]) }})
 }
 
 func init() {
